@@ -102,7 +102,7 @@ def convert_board_log(data: dict) -> BoardLog:
     bid_history: Optional[List[Bid]] = [Bid.str_to_bid(bid) for bid in data[
         'bid_history']] if 'bid_history' in data else None
     play_history: Optional[List[TrickHistory]] = [
-        TrickHistory(leader=b['leader'],
+        TrickHistory(leader=Player[b['leader']],
                      cards=tuple([Card.str_to_card(x) for x in b['cards']])) for
         b in data['play_history']] if 'play_history' in data and data[
         'play_history'] is not None else None
